@@ -493,6 +493,20 @@ func Activate(w *World) {
 // Deactivate detaches the hooks.
 func Deactivate() { active.Store(nil) }
 
+// LoseLatest replaces the stored latest head by keep (nil: as on a fresh configuration directory) while
+// the cache stays: a restored module cache next to a new or older configuration. The history of installed
+// config values is kept, so whatever is stored afterwards is still judged against what was stored before.
+func (w *World) LoseLatest(keep []byte) {
+	w.mu.Lock()
+	if keep == nil {
+		delete(w.Config, w.Name+"/latest")
+	} else {
+		w.Config[w.Name+"/latest"] = append([]byte(nil), keep...)
+	}
+	w.mu.Unlock()
+	w.log(0, "ConfigLost", w.Name+"/latest", fmt.Sprintf("len=%d", len(keep)))
+}
+
 // ArmConfigReadFault makes the next ReadConfig of a non-key file fail once.
 func (w *World) ArmConfigReadFault() {
 	w.mu.Lock()
